@@ -305,6 +305,12 @@ class HTTP1Connection(httputil.HTTPConnection):
             gen_log.info("Malformed HTTP message from %s: %s", self.context, e)
             if not self.is_client:
                 await self.stream.write(b"HTTP/1.1 400 Bad Request\r\n\r\n")
+            else:
+                # The client's delegate is waiting for this response. If
+                # the start line or headers were malformed it has not been
+                # given anything yet, and after close() nothing else would
+                # tell it: the request would sit there until its timeout.
+                need_delegate_close = True
             self.close()
             return False
         finally:
